@@ -799,6 +799,7 @@ func Run(ctx *core.Ctx) {
 	if err != nil {
 		ctx.Fatal("%v", err)
 	}
+	crossKeyProbe(ctx, bin)
 	nCfg := ctx.Pick(144, 6000)
 	moves := ctx.Pick(30, 100)
 	workers := ctx.Pick(8, 12)
@@ -819,4 +820,101 @@ func Run(ctx *core.Ctx) {
 	}
 	wg.Wait()
 	ctx.Finish()
+}
+
+// crossKeyProbe: a ROAM fence whose neighbours live in another collection. An
+// object there that happens to carry the id of the moved object is another
+// object and is reported like any other; and a radius that reaches a pole to
+// the last bit still finds its neighbours.
+func crossKeyProbe(ctx *core.Ctx, bin string) {
+	s, err := srv.Start(srv.Opts{Bin: bin})
+	if err != nil {
+		ctx.Inconclusive("cross-key probe: " + err.Error())
+		return
+	}
+	defer s.Kill9()
+	c, err := respc.Dial(s.Addr(), 5*time.Second)
+	if err != nil {
+		ctx.Inconclusive("cross-key probe: " + err.Error())
+		return
+	}
+	defer c.Close()
+	c.Timeout = 10 * time.Second
+	type tcase struct {
+		name     string
+		others   [][3]string // id, lat, lon in the roam collection
+		radius   string
+		move     [3]string // id, lat, lon in the fenced collection
+		expected []string
+	}
+	cases := []tcase{
+		{"same-id-in-other-collection", [][3]string{{"a", "33", "-115"}, {"b", "33.001", "-115"}}, "1000", [3]string{"a", "33", "-115.001"}, []string{"a", "b"}},
+		{"radius-reaches-pole", [][3]string{{"n1", "6", "10"}, {"n2", "-40", "60"}}, "9451568.764787493", [3]string{"m", "5", "10"}, []string{"n1", "n2"}},
+		{"radius-reaches-pole-2", [][3]string{{"n1", "46", "10"}, {"n2", "10", "60"}}, "5003771.699005143", [3]string{"m", "45", "10"}, []string{"n1", "n2"}},
+	}
+	for i, tc := range cases {
+		fkey, okey, ch := fmt.Sprintf("xf%d", i), fmt.Sprintf("xo%d", i), fmt.Sprintf("xch%d", i)
+		for _, o := range tc.others {
+			c.Do("SET", okey, o[0], "POINT", o[1], o[2])
+		}
+		if r, err := c.Do("SETCHAN", ch, "NEARBY", fkey, "FENCE", "ROAM", okey, "*", tc.radius); err != nil || r.IsErr() {
+			ctx.Inconclusive("cross-key probe: SETCHAN failed")
+			return
+		}
+		sub, err := respc.Dial(s.Addr(), 5*time.Second)
+		if err != nil {
+			ctx.Inconclusive("cross-key probe: " + err.Error())
+			return
+		}
+		sub.Send("SUBSCRIBE", ch)
+		sub.RecvTimeout(5 * time.Second)
+		c.Do("SET", fkey, tc.move[0], "POINT", tc.move[1], tc.move[2])
+		got := map[string]bool{}
+		for {
+			rp, err := sub.RecvTimeout(1500 * time.Millisecond)
+			if err != nil {
+				break
+			}
+			if rp.Kind == '*' && len(rp.Arr) == 3 {
+				txt := rp.Arr[2].Str
+				if k := strings.Index(txt, `"nearby":{`); k >= 0 {
+					sub2 := txt[k:]
+					if j := strings.Index(sub2, `"id":"`); j >= 0 {
+						id := sub2[j+6:]
+						got[id[:strings.IndexByte(id, '"')]] = true
+					}
+				}
+			}
+		}
+		sub.Close()
+		ctx.Eval(1)
+		ctx.Count("cross_key_probes", 1)
+		ctx.Distinct("cross-key|" + tc.name)
+		var missing []string
+		mlat, _ := strconv.ParseFloat(tc.move[1], 64)
+		mlon, _ := strconv.ParseFloat(tc.move[2], 64)
+		rad, _ := strconv.ParseFloat(tc.radius, 64)
+		for _, o := range tc.others {
+			la, _ := strconv.ParseFloat(o[1], 64)
+			lo, _ := strconv.ParseFloat(o[2], 64)
+			// expected by haversine, with the usual don't-care band around the radius
+			if d := notif.Haversine(mlat, mlon, la, lo); d < rad*(1-band) && !got[o[0]] {
+				missing = append(missing, o[0])
+			}
+		}
+		if len(missing) > 0 {
+			ctx.Violation("roam:nearby-missing:"+tc.name, fmt.Sprintf("fence [NEARBY %s FENCE ROAM %s * %s], neighbours %v, `SET %s %s POINT %s %s`: no `nearby` entry for %v (received for %v); all of them are within the radius by haversine", fkey, okey, tc.radius, tc.others, fkey, tc.move[0], tc.move[1], tc.move[2], missing, keysOf(got)),
+				map[string]any{"case": tc.name, "missing": missing})
+			return
+		}
+	}
+}
+
+func keysOf(m map[string]bool) []string {
+	var out []string
+	for k := range m {
+		out = append(out, k)
+	}
+	sort.Strings(out)
+	return out
 }
